@@ -292,6 +292,10 @@ class Translator:
                 v, t = self.expr(f.value, env, binds)
                 fn = self.fns.get(f'{t}.{f.attr}')
                 if fn is not None:
+                    formal = [p_ for p_ in fn.params if p_[0] != 'self']
+                    if len(formal) != len(args):
+                        raise TransError(f'arity of {t}.{f.attr}')
+                    args = [self.coerce(a, ta, tp, f'{t}.{f.attr}', pn) for (a, ta), (pn, tp) in zip(args, formal)]
                     x = self.tmp()
                     binds.append((x, f'{fn.coq_name} {v} ' + ' '.join(a for a, _ in args)))
                     return x, fn.ret
@@ -335,6 +339,8 @@ class Translator:
     def coerce(self, a, ta, tp, fkey, pname):
         if ta == tp or (ta == 'strenum' and tp in ('str', 'strenum')):
             return a, tp
+        if tp == 'range' and ta == 'exon':
+            return f'(x_range {a})', tp      # an Exon is a UIntRange
         if tp == 'ostr' and ta == 'str':
             return f'(Some {a})', tp
         if tp == 'ostr' and ta == 'none':
@@ -379,6 +385,31 @@ class Translator:
         r = self.raises(st)
         if r:
             return f'Err {r}', None
+        # `if x is None: <ends>` on an optional value: the rest of the block sees the value itself
+        if isinstance(st, ast.If) and not st.orelse and isinstance(st.test, ast.Compare) and len(st.test.ops) == 1 and isinstance(st.test.ops[0], ast.Is) \
+                and isinstance(st.test.left, ast.Name) and isinstance(st.test.comparators[0], ast.Constant) and st.test.comparators[0].value is None \
+                and st.test.left.id in env and env[st.test.left.id][1].startswith('option:') and self.ends(st.body):
+            name = st.test.left.id
+            v, t = env[name]
+            a, ta = self.block(st.body, env)
+            env2 = dict(env)
+            env2[name] = (f'{cname(name)}_v', t[7:])
+            b, tb = self.block(rest, env2)
+            return f'match {v} with None => {a} | Some {cname(name)}_v => {b} end', self.join(ta, tb)
+        # `assert x and <condition on x>` on an optional range (a range is never empty, hence truthy)
+        if isinstance(st, ast.Assert) and isinstance(st.test, ast.BoolOp) and isinstance(st.test.op, ast.And) and isinstance(st.test.values[0], ast.Name) \
+                and st.test.values[0].id in env and env[st.test.values[0].id][1] == 'option:range':
+            name = st.test.values[0].id
+            v, t = env[name]
+            env2 = dict(env)
+            env2[name] = (f'{cname(name)}_v', 'range')
+            binds = []
+            conds = [self.expr(x, env2, binds) for x in st.test.values[1:]]
+            if binds or any(tc != 'bool' for _, tc in conds):
+                raise TransError('assert on an optional range: condition')
+            body, tb = self.block(rest, env2)
+            c = ' && '.join(cv for cv, _ in conds) or 'true'
+            return f'match {v} with None => Err AssertionError | Some {cname(name)}_v => if {c} then {body} else Err AssertionError end', tb
         if isinstance(st, ast.Assert):
             binds = []
             c, tc = self.expr(st.test, env, binds)
